@@ -74,6 +74,7 @@ theorem calcRewards_ok (now since : Nat) (apr c : Dec) (stake : Nat) (h : since 
     calcRewards now since apr c stake =
       .ok (Dec.sub (grossReward now since apr stake) (Dec.mul (grossReward now since apr stake) c)) := by
   unfold calcRewards
+  have hle : since / NS ≤ now / NS := Nat.div_le_div_right h
   rw [if_neg (by omega), netReward_ok _ _ hc]
 
 theorem calcRewards_cases (now since : Nat) (apr c : Dec) (stake : Nat) :
